@@ -90,6 +90,7 @@ class Run(object):
         self.watchdogs = 0
         self.observed = {}
         self.deadline = None
+        self.loglevel_period = 0 if os.environ.get('VERIF_NO_LOGLEVEL') else 40      # cases per block (see case())
 
     # ----------------------------------------------------------------- rng
     def rng(self, *salt):
@@ -117,6 +118,10 @@ class Run(object):
     def case(self, fingerprint=None, nontrivial=True, sample=None, sample_class=None):
         """Register one executed case."""
         self.evaluations += 1
+        if self.loglevel_period and not self.is_replay:
+            # environment fact varied across the run: every fourth block of cases runs with pymodbus' loggers at DEBUG
+            from . import repo as _repo
+            _repo.debug_logging((self.evaluations // self.loglevel_period) % 4 == 3)
         if nontrivial and fingerprint is not None:
             self.distinct.add(fingerprint if isinstance(fingerprint, int) else h64(fingerprint))
         if sample is not None:
@@ -153,6 +158,10 @@ class Run(object):
         self.nviol += 1
         fp = str(mechanism)
         if fp not in self.violations and len(self.violations) < 40:
+            from . import repo as _repo
+            if _repo.DEBUG_LOGGING[0] and isinstance(case, dict):
+                case = dict(case, _debug_logging=True)
+                message = message + ' [pymodbus loggers at DEBUG]'
             self.violations[fp] = (message, jsonable(case))
 
     def inconclusive_reason(self, reason):
@@ -224,8 +233,8 @@ class Run(object):
         for slug in sorted(self.known_tally):
             n, failed, what = self.known_tally[slug]
             if failed:
-                lines.append('KNOWN-FINDING: property=%s %s: %s (%d of %d cases in region failed)'
-                             % (self.prop, slug, what, failed, n))
+                lines.append('KNOWN-FINDING: property=%s %s: %s (%s)'
+                             % (self.prop, slug, what, ('%d of %d cases in region failed' % (failed, n)) if n >= failed else ('%d cases failed in region' % failed)))
         replay_paths = []
         if self.violations:
             os.makedirs(os.path.join(OUT, 'replay'), exist_ok=True)
